@@ -399,8 +399,8 @@ def gen_case(rng, style=None) -> dict:
                 col[npre + c] = rng.randint(4, 32) / 8.0
             else:
                 col[npre + c] = rng.randint(-16, 32) / 8.0
-            if not p["when"] and rng.chance(0.03):
-                col[npre + c] = NAN
+            if not p["when"] and rng.chance(0.12):
+                col[npre + c] = NAN           # unconditional exogenization at a date with no observation
     return {
         "style": style, "eqs": eqs, "prep": prep, "pars": pars, "exo": exo, "npre": npre, "nper": nper, "npost": npost,
         "plan": plan, "data": {k: [None if v != v else v for v in col] for k, col in data.items()},
@@ -575,6 +575,30 @@ def output_values(case, out, span):
         except Exception:
             vals[n] = [NAN] * case["nper"]
     return vals
+
+
+def nan_policy_check(ctx: Ctx, case, order, built, vals):
+    """non-default `when_simulates_nan="error"` on the same object: the run must be refused when the (silent) output holds a
+    missing or infinite value in a cell the simulation wrote, and must go through when every written value is a number"""
+    m, db, span, plan, *_ = built
+    lhs = sorted(set(e["lhs"] for e in case["eqs"]))
+    written = [x for n in lhs for x in vals[n]]
+    res = [x for n in vals if n not in lhs for x in vals[n]]
+    bad = any(x != x or math.isinf(x) for x in written)
+    clean = not bad and not any(x != x or math.isinf(x) for x in res) and len(lhs) == len(case["eqs"])
+    if not bad and not clean:
+        return
+    try:
+        m.simulate(db, span, plan=plan, when_simulates_nan="error",
+                   execution_order="dates_equations" if order == "de" else "equations_dates")
+        raised = False
+    except Exception:
+        raised = True
+    ctx.streams_compared["nan-policy"] = ctx.streams_compared.get("nan-policy", 0) + 1
+    ctx.count("nan_policy_" + ("refused" if raised else "accepted"))
+    if raised != bad:
+        ctx.disagree("nan-policy", {"case": case, "order": order}, "raised" if raised else "accepted",
+                     "a written value is missing" if bad else "every written value is a number")
 
 
 def run_impl(case, order, built=None):
@@ -872,10 +896,24 @@ def oracle(ctx: Ctx, case, order, status, vals, out_db, eff=None):
                     raise Skip()
                 if PLAN_USES_LAG[point["kind"]] and ((e["name"], lagc) in written_later[k] or lagc >= c):
                     raise Skip()
-                if tname is not None and d is None:
+                lag_missing = False
+                if PLAN_USES_LAG[point["kind"]]:
+                    lv = read(e["name"], lagc)
+                    lag_missing = lv is None or lv != lv
+                if (tname is not None and d is None) or lag_missing:
                     if point["when"]:
                         raise Skip()      # no data: plain simulation, already checked above
-                    raise Skip()          # exogenized at NaN: nothing to demand
+                    # exogenized unconditionally (no when_data) where the implied value is missing: "the variable takes the implied
+                    # value", so it must come out missing -- not silently simulated
+                    got_raw = read(e["name"], c)
+                    if got_raw is not None and got_raw == got_raw:
+                        ctx.fail("exogenized-missing-value", {"case": case, "order": order},
+                                 f"order={order} `{e['name']}` is exogenized unconditionally ({point['kind']}, shift {point['shift']}) at simulated "
+                                 f"period #{c} where the implied value is missing (target {d!r}, lag missing: {lag_missing}), but the output "
+                                 f"holds the number {got_raw!r}")
+                    else:
+                        ctx.count("oracle_exogenized_missing_value_checked")
+                    raise Skip()
                 lag = ev.value(e["name"], point["shift"]) if PLAN_USES_LAG[point["kind"]] else None
                 kind = point["kind"]
                 want = (d if kind == "None" else math.exp(d) if kind == "Log" else lag + d if kind == "Diff"
@@ -1031,6 +1069,8 @@ def run_cases(ctx: Ctx, cases, with_model=True):
         if rep is not None:
             compare_case(ctx, case, order, status, vals, rep[k], rep[len(jobs) + k])
         oflags, oclosed = oracle(ctx, case, order, status, vals, out_db, eff)
+        if status == "ok" and with_model and (ci + (order == "ed")) % 4 == 0:
+            nan_policy_check(ctx, case, order, built[ci], vals)
         if rep is not None and oflags is not None and rep[len(jobs) + k].startswith("ok "):
             # E-class stream: "this step computes its value after everything it reads" as decided by the model (`stepOK`)
             # and, independently, by the oracle from the equation texts
@@ -1141,7 +1181,7 @@ def search(ctx: Ctx, seeds):
                 cases.append(c)
         except Exception:
             pass
-    cases += [gen_case(ctx.rng.fork(f"search{i}")) for i in range(6000)]
+    cases += [gen_case(ctx.rng.fork(f"search{i}")) for i in range(2000)]      # capped: about 60 s
     run_cases(ctx, cases, with_model=False)
 
 
